@@ -10,7 +10,7 @@
    final division rounds). *)
 From Coq Require Import ZArith Reals.
 From Flocq Require Import Core BinarySingleNaN.
-From Tetl Require Import Lib.Base C12.Model C12.Spec C12.ProofsCast C12.ProofsAlgebra C12.FModel C12.FProofs C12.FProofs2 C12.FProofs3 C12.FProofs4.
+From Tetl Require Import Lib.Base C12.Model C12.Spec C12.ProofsCast C12.ProofsAlgebra C12.FModel C12.FProofs C12.FProofs2 C12.FProofs3 C12.FProofs4 C12.FProofs5.
 Local Open Scope Z_scope.
 
 (* duration_cast<duration<double, n2/d2>>(duration<Int, n1/d1>{c}) and the converting constructor
@@ -112,6 +112,27 @@ Proof.
   apply dd_cmp_exact; assumption.
 Qed.
 
+(* mixed representations: an int64-count duration with a double-count duration holding a whole
+   number (common representation double): + - exact, < == exact; and a double -> double cast of a
+   whole-valued count is the integer-source cast of the theorems above *)
+Theorem C12_float_mixed_exact : forall w1 n1 d1 w2 n2 d2 c1 c2,
+  period_ok n1 d1 = true -> period_ok n2 d2 = true -> fboth_ok n1 d1 n2 d2 c1 c2 ->
+  let a := Dur w1 n1 d1 in let b := Dur w2 n2 d2 in
+  (Z.abs (plus_spec n1 d1 n2 d2 c1 c2) <= two53 ->
+     exists r, id_plus_m a b c1 (d_of_Z c2) = Val r /\ is_finite r = true
+               /\ B2R r = IZR (plus_spec n1 d1 n2 d2 c1 c2))
+  /\ (Z.abs (minus_spec n1 d1 n2 d2 c1 c2) <= two53 ->
+     exists r, id_minus_m a b c1 (d_of_Z c2) = Val r /\ is_finite r = true
+               /\ B2R r = IZR (minus_spec n1 d1 n2 d2 c1 c2))
+  /\ id_lt_m a b c1 (d_of_Z c2) = Val (lt_spec n1 d1 n2 d2 c1 c2)
+  /\ id_eq_m a b c1 (d_of_Z c2) = Val (eq_spec n1 d1 n2 d2 c1 c2)
+  /\ dd_cast_m a b (d_of_Z c1) = fcast_m a b c1.
+Proof.
+  intros w1 n1 d1 w2 n2 d2 c1 c2 Hp1 Hp2 Hb. cbv zeta.
+  destruct (id_ops_exact w1 n1 d1 w2 n2 d2 c1 c2 Hp1 Hp2 Hb) as (H1 & H2 & H3 & H4).
+  repeat split; try assumption.
+Qed.
+
 (* the computable specification used by the correspondence run (one correctly rounded division of
    the exactly represented numerator and denominator) is that once-rounded rational *)
 Theorem C12_float_spec_is_rounded_rational : forall n1 d1 n2 d2 c,
@@ -127,7 +148,7 @@ Definition C12_group_float_target :=
 Print Assumptions C12_group_float_target.
 
 Definition C12_group_float_source :=
-  (conj C12_float_source_cast_exact (conj C12_float_source_rounding_exact C12_float_source_arith_exact)).
+  (conj C12_float_source_cast_exact (conj C12_float_source_rounding_exact (conj C12_float_source_arith_exact C12_float_mixed_exact))).
 Print Assumptions C12_group_float_source.
 
 (* non-vacuity: 1500 ms -> 1.5 s; 90 min -> 1.5 h; -2^31 ticks of 1001/30000 s in thirds of a second *)
